@@ -5,6 +5,7 @@
    cancel was delivered, what reaches the top level is CancelledError - never TaskTimeout,
    TimeoutCancellationError or UncaughtTimeoutError - and no timer is left armed. *)
 From AV Require Import Base Gen_curio Timeout TimeoutProofs.
+From AV Require TaskGroup TaskGroupProofs.
 Local Open Scope Z_scope.
 
 Theorem C12_external_cancel_propagates : forall p e,
@@ -34,6 +35,16 @@ Example C12_f10 :
   log (snd (eval f10 (init (Some 10)))) = [(Exc ETaskTimeout, true); (Exc ECancelled, false)].
 Proof. vm_compute. repeat split. Qed.
 
+(* the task-group part (model/TaskGroup.v, the LTS of C09): once task.cancel() has been called on a
+   joining task that had not ended - in join(), in `async with`, while the body's failure is being
+   handled, at any instant - whatever happens afterwards it can only end cancelled: the
+   CancelledError is never swallowed by join's finally clause *)
+Theorem C12_group_join_stays_cancelled : forall g ls, TaskGroupProofs.ended g = false ->
+  forall c e j, TaskGroup.pc (fold_left TaskGroup.step ls (TaskGroup.step g TaskGroup.LCancelJoiner)) = TaskGroup.JEnded c e j ->
+  c = true.
+Proof. exact TaskGroupProofs.cancelled_join_ends_cancelled. Qed.
+
 Print Assumptions C12_external_cancel_propagates.
+Print Assumptions C12_group_join_stays_cancelled.
 Print Assumptions C12_post.
 Print Assumptions C12_cleanup.
